@@ -358,6 +358,10 @@ func (s *Sorts) structSort(t types.Type, u *types.Struct) string {
 }
 
 func (s *Sorts) FieldSel(structSort string, u *types.Struct, i int) string {
+	if u.Field(i).Name() == "_" {
+		// several blank fields in one struct: selector names must be distinct (cvc5 rejects duplicates)
+		return fmt.Sprintf("%s$_%d", structSort, i)
+	}
 	return structSort + "$" + sanitize(u.Field(i).Name())
 }
 
